@@ -43,6 +43,8 @@ func main() {
 	lsOut := flag.String("lockset-out", "", "output Lean file for the lockset facts (F6); default: appended to -out")
 	atomicOut := flag.String("atomic-out", "", "output Lean file for the critical-section shape facts (F13, Gen/AtomicFacts.lean); default: not written")
 	encOut := flag.String("enc-out", "", "output Lean file for the translated encoder bodies (F7, Gen/Encoders.lean); default: not written")
+	loopsNamingOut := flag.String("loops-naming-out", "", "output Lean file for the handler glue of handlers/dns_naming (Gen/LoopsNaming.lean); default: not written")
+	namesOut := flag.String("names-out", "", "output Lean file for the regenerated NameEntry.Merge (Gen/NamesGen.lean); default: not written")
 	loopsDnsOut := flag.String("loops-dns-out", "", "output Lean file for the translated DNS decoder bodies (F11, Gen/LoopsDns.lean); default: not written")
 	loopsOut := flag.String("loops-out", "", "output Lean file for the translated loop bodies (F11, Gen/Loops.lean); default: not written")
 	loopsOptsOut := flag.String("loops-opts-out", "", "output Lean file for the translated option / TLV parsers (F14, Gen/LoopsOpts.lean); default: not written")
@@ -151,6 +153,22 @@ func main() {
 		var lb strings.Builder
 		loopFacts(pkgs, &lb)
 		if err := os.WriteFile(*loopsOut, []byte(lb.String()), 0o644); err != nil {
+			fmt.Fprintln(os.Stderr, err)
+			os.Exit(1)
+		}
+	}
+	if *loopsNamingOut != "" {
+		var lb strings.Builder
+		loopNamingFacts(pkgs, &lb)
+		if err := os.WriteFile(*loopsNamingOut, []byte(lb.String()), 0o644); err != nil {
+			fmt.Fprintln(os.Stderr, err)
+			os.Exit(1)
+		}
+	}
+	if *namesOut != "" {
+		var lb strings.Builder
+		nameFacts(pkgs, &lb)
+		if err := os.WriteFile(*namesOut, []byte(lb.String()), 0o644); err != nil {
 			fmt.Fprintln(os.Stderr, err)
 			os.Exit(1)
 		}
